@@ -26,6 +26,7 @@ FIXED = [
  ("C18", "only treats XML whitespace", "text made of non-XML Unicode white space (U+00A0, U+0085, U+2003, U+2028 ...) was treated as insignificant whitespace and removed"),
  ("C12", "unresolved_namespaces reports the namespace of an attribute", "clone_with_prefixes of an element that binds a namespace only as default namespace while a descendant attribute is in that namespace: the inherited prefixed binding was not copied, the clone failed to serialise (MissingPrefix) although the source serialised in place"),
  ("C20", "xotify puts the trailing comments", "fixed::Document::xotify appended the `after` comments / processing instructions as children of the document element instead of as siblings after it"),
+ ("C10", "generates prefixes that are not in use", "create_missing_prefixes named its prefixes n0, n1, ... from zero on every call: a second call (after a node in a new namespace had been added) or an existing user prefix n0 had its binding overridden by the newly generated n0; names that relied on it no longer resolved (to_string: MissingPrefix)"),
  ("C07", "reverse_children walks", "reverse_children(n) never terminated for a node with two or more ordinary children (indextree Children::next_back never advances); it yields the last child for ever"),
  ("C09", "prefix_for_namespace skips shadowed", "prefix_for_namespace returned None as soon as it met a prefix that a nearer declaration shadows, although another prefix (or the built-in xml prefix) was bound to the namespace further up"),
  ("C09", "qualified name of an attribute node never uses the empty prefix", "node_name_ref / name_ref / full_name on an attribute node whose namespace is only bound as the default namespace reported the empty prefix (which for an attribute means no namespace)"),
@@ -51,6 +52,10 @@ OPEN_PARSE = [
 ]
 
 OPEN = OPEN_PARSE + [
+ _kf("C08", "KF-C08-ids-are-16-bit", "name / namespace / prefix ids are 16 bits wide: the 65537th registration in a table gets the id of the first (to_id truncates with `as u16`), so two different strings share an id",
+     "index = 65536: from_id(to_id(65536)) == 0; natively: registering 65537 distinct prefixes makes add_prefix return the id of the first",
+     "src/id/name.rs, namespace.rs, prefix.rs IdIndex::to_id (`index as u16`)",
+     "widening the ids changes the size of every Value and is a maintainer decision; a panic on overflow would not satisfy the property either"),
  dict(_DEFNS, property="C01"),
  dict(_DEFNS, property="C10"),
  {"property": "C04", "class": "KF-C04-unwrap-parentless-element", "status": "open",
